@@ -81,6 +81,23 @@ def groups(R, thorough):
         # keys with r in {1, 2, 4} (single-bit), saturated r, seeded: the final reduction h >= p must not be a branch
         ks = secrets32(R, "p/" + mname, km) + [("r=ones,s=0", [255] * 16 + [0] * 16), ("r=0,s=ones", [0] * 16 + [255] * 16), ("r=1,s=seeded", [1] + [0] * 15 + vlib.prng_bytes(R.seed, "c19/ps", 16))]
         g.append(("poly1305/" + mname, "poly1305", [(l, s, msg) for l, s in ks]))
+    # secrets crafted for the fixed public input: a Poly1305 key that drives the limb code through its rare carry / select branches for this very
+    # message (polycraft, classes of Poly1305Donna.tla), next to ordinary keys for the same message
+    from props import polycraft
+    for cls in ("chain1", "chain3", "fin_h0_carry", "fin_h0_carry_h1_odd", "acc_p_plus_1", "acc_2_130_minus_1"):
+        r = polycraft.craft(cls, R.rng)
+        if r:
+            g.append(("poly1305/crafted-" + cls, "poly1305", [("crafted:" + cls, r[0], r[1])] + [(l, s, r[1]) for l, s in secrets32(R, "pc/" + cls, 5)]))
+    # an X25519 secret for which the shared secret with the fixed peer value is a boundary value of the field representation (small, or just
+    # below p: the canonical encoding's final subtraction), next to ordinary secrets for the same peer value
+    from props import curvecommon as cc
+    for fam, cands in (("below-p", [cc.P - k for k in range(1, 400)]), ("small", list(range(19, 400))), ("low-limb-full", [((R.rng.getrandbits(204) << 51) | ((1 << 51) - k)) for k in range(1, 200)])):
+        k0 = vlib.prng_bytes(R.seed, "c19/xk/" + fam, 32)
+        for v in cands:
+            u = cc.x25519_preimage(v % cc.P, k0)
+            if u is not None:
+                g.append(("x25519/result-" + fam, "x25519", [("crafted:" + fam, k0, cc.le32(u))] + [(l, s, cc.le32(u)) for l, s in secrets32(R, "xr/" + fam, 3 if not thorough else 8)]))
+                break
     for v in ("hmac_sha256", "hmac_sha512", "hmac_sha1"):
         g.append((v + "/key32", v, [(l, s, None) for l, s in secrets32(R, v, km)]))
         g.append((v + "/key20", v, [(l, s[:20], None) for l, s in secrets32(R, v + "20", 5)]))
@@ -162,7 +179,7 @@ def run(R):
               "%s for HMAC / ciphers) or (tag, candidate) pairs for the comparisons (equal + every first-mismatch position x 2 mismatch kinds, lengths 16/20/28/32/64); "
               "event = instruction count, then one digest per 4096 instruction addresses; distinct = (victim, public input, secret label)" % (
                   "24" if thorough else "3", "30" if thorough else "8", "30" if thorough else "8"))
-    for name in ("x25519/u=9", "ed_sign/msg96", "poly1305/ff32", "mac_eq/len20"):
+    for name in ("x25519/u=9", "ed_sign/msg96", "poly1305/ff32", "mac_eq/len20", "poly1305/crafted-chain1", "x25519/result-below-p"):
         R.sample({"victim": name, **R.extra["victims"][name]})
     R.assumptions += ["the observable is the sequence of instruction addresses of this compiler's release build on this x86-64 host: no memory-address, cache or timing model",
                       "secrets are sampled (seeded random, all-zero, all-ones, single-bit, crafted Poly1305 keys); this is testing of a hyperproperty, not a proof over all secrets",
